@@ -54,6 +54,7 @@ UNPROVED = [
     "memoize's real argument match (== with Type.__eq, shallow_compare_nomt on tables) being an equivalence: discharged only for the modelled match of generics (types by identity, values, nil: C16_generic_same_type); table arguments are covered by C07's memo stream",
     "that each poly evaluation yields exactly one emitted C function: read from the emitted C in the poly stream only",
     "the hygiene model has one scope chain and one statement list: that hygienize switches context.scope / statnodes to the definition's (a generic called from another block than its definition) is assumed; covered by the hygiene_nested stream only",
+    "statements generated into one place (between two source statements) by different hygienized functions run in generation order: checked on every generated nesting against the implementation and against the cursor model, not a theorem (C16_hygienize_own_order is about one function's own statements)",
     "memo_run's arbitrary pairs() orders are quantified in the theorem but cannot be steered in the harness (C07 runs the memoize module under different hash seeds)",
     "aster.value, inject_value, concepts: through the generated programs only",
 ]
@@ -411,6 +412,30 @@ def correspond(ctx):
             n_total = sum(1 for it in p[1] if it == "p") + sum(len(o) for o in own)
             ordered = r["rc"] == 0 and len(got) == n_total and all(
                 all(str(a) in pos and str(b) in pos and pos[str(a)] < pos[str(b)] for a, b in zip(o, o[1:])) for o in own)
+            # second oracle (the hand-expanded equivalent): statements generated into one place - between two
+            # statements of the source - run in the order in which they were generated
+            cnt, plain = [0], set()
+
+            def walk(hh):
+                for bb in p[0][hh]:
+                    if bb == "e":
+                        cnt[0] += 1
+                    else:
+                        walk(bb[1])
+            for it in p[1]:
+                if it == "p":
+                    cnt[0] += 1
+                    plain.add(str(cnt[0]))
+                elif it[0] == "c":
+                    walk(it[1])
+            gap = []
+            for x in got + ["P"]:
+                if x == "P" or x in plain:
+                    if gap != sorted(gap):
+                        ordered = False
+                    gap = []
+                elif x.isdigit():
+                    gap.append(int(x))
             model_list = m.split(",") if m else []
             if not ordered:
                 if got == model_list and r["rc"] == 0:
@@ -423,7 +448,7 @@ def correspond(ctx):
                         inject_instances.append((r["src"], got))
                 else:
                     oracle_fail("inject: " + r["src"].replace("\n", " ; ")[:500],
-                                "hygienized macros: final statement order %s (rc=%s %s), own statements per call %s, model %s" % (got, r["rc"], r["err"][-200:], own, model_list),
+                                "hygienized macros: the statements do not run in the order in which they were generated into their place: final order %s (rc=%s %s), own statements per call %s, model %s" % (got, r["rc"], r["err"][-200:], own, model_list),
                                 {"program": r["src"], "stderr": r["err"], "model": m})
             elif got != model_list:
                 mismatch("inject", "model of hygienize's addindex bookkeeping (%s) disagrees with the implementation (%s)" % (model_list, got), {"program": r["src"], "model": m})
